@@ -105,29 +105,61 @@ package slayers
 //@ import onehop "github.com/scionproto/scion/pkg/slayers/path/onehop"
 //@ import epic "github.com/scionproto/scion/pkg/slayers/path/epic"
 //@ macro ohpPathOK(o, d) = (len(d) >= 32 && o.Info.ConsDir == (d[0]&1 == 1) && o.Info.Peer == (d[0]&2 == 2) && o.Info.SegID == uint16(d[2])<<8|uint16(d[3]) && o.Info.Timestamp == uint32(d[4])<<24|uint32(d[5])<<16|uint32(d[6])<<8|uint32(d[7]) && o.FirstHop.EgressRouterAlert == (d[8]&1 == 1) && o.FirstHop.IngressRouterAlert == (d[8]&2 == 2) && o.FirstHop.ExpTime == d[9] && o.FirstHop.ConsIngress == uint16(d[10])<<8|uint16(d[11]) && o.FirstHop.ConsEgress == uint16(d[12])<<8|uint16(d[13]) && o.FirstHop.Mac[0] == d[14] && o.FirstHop.Mac[1] == d[15] && o.FirstHop.Mac[2] == d[16] && o.FirstHop.Mac[3] == d[17] && o.FirstHop.Mac[4] == d[18] && o.FirstHop.Mac[5] == d[19] && o.SecondHop.EgressRouterAlert == (d[20]&1 == 1) && o.SecondHop.IngressRouterAlert == (d[20]&2 == 2) && o.SecondHop.ExpTime == d[21] && o.SecondHop.ConsIngress == uint16(d[22])<<8|uint16(d[23]) && o.SecondHop.ConsEgress == uint16(d[24])<<8|uint16(d[25]) && o.SecondHop.Mac[0] == d[26] && o.SecondHop.Mac[1] == d[27] && o.SecondHop.Mac[2] == d[28] && o.SecondHop.Mac[3] == d[29] && o.SecondHop.Mac[4] == d[30] && o.SecondHop.Mac[5] == d[31])
-//@ macro epicPathOK(e, d) = (len(d) >= 16 && e.ScionPath != nil && len(e.PHVF) == 4 && len(e.LHVF) == 4 && scion.baseOK(e.ScionPath.PathMeta.SegLen[0], e.ScionPath.PathMeta.SegLen[1], e.ScionPath.PathMeta.SegLen[2], e.ScionPath.NumINF, e.ScionPath.NumHops) && e.ScionPath.PathMeta.CurrHF <= 63 && e.ScionPath.PathMeta.CurrINF <= 3 && len(e.ScionPath.Raw) == 4+e.ScionPath.NumINF*8+e.ScionPath.NumHops*12 && sameArray(e.ScionPath.Raw, d) && fresh(e.PHVF) && fresh(e.LHVF))
+//@ macro epicPathOK(e, d) = (len(d) >= 16 && e.ScionPath != nil && fresh(e.ScionPath) && len(e.PHVF) == 4 && len(e.LHVF) == 4 && scion.baseOK(e.ScionPath.PathMeta.SegLen[0], e.ScionPath.PathMeta.SegLen[1], e.ScionPath.PathMeta.SegLen[2], e.ScionPath.NumINF, e.ScionPath.NumHops) && e.ScionPath.PathMeta.CurrHF <= 63 && e.ScionPath.PathMeta.CurrINF <= 3 && len(e.ScionPath.Raw) == 4+e.ScionPath.NumINF*8+e.ScionPath.NumHops*12 && sameArray(e.ScionPath.Raw, d) && fresh(e.PHVF) && fresh(e.LHVF))
 //@ iface path.Path.DecodeFromBytes
-//@   modifies nothing
+//@   # the path object itself is rewritten (the raw path used for unknown path types keeps no state that is read)
+//@   modifies *asptr(self, *onehop.Path) if typeis(self, *onehop.Path)
+//@   modifies *asptr(self, *epic.Path) if typeis(self, *epic.Path)
+//@   modifies *asptr(self, *scion.Raw) if typeis(self, *scion.Raw)
 //@   ensures result == nil && typeis(self, *onehop.Path) ==> asptr(self, *onehop.Path) != nil && ohpPathOK(asptr(self, *onehop.Path), arg0)
 //@   ensures result == nil && typeis(self, *epic.Path) ==> asptr(self, *epic.Path) != nil && epicPathOK(asptr(self, *epic.Path), arg0)
 //@   # for the SCION path type this is the verified postcondition of (*scion.Raw).DecodeFromBytes
 //@   ensures result == nil && typeis(self, *scion.Raw) ==> asptr(self, *scion.Raw) != nil && rawPathOK(asptr(self, *scion.Raw), arg0)
+//@ # the recycled path objects are exactly what RecyclePaths installs (the only writer of pathPool)
+//@ import empty "github.com/scionproto/scion/pkg/slayers/path/empty"
+//@ macro poolInv(s) = (s.pathPool != nil ==> len(s.pathPool) == 4 && s.pathPoolRaw != nil && typeis(s.pathPoolRaw, *path.rawPath) && typeis(s.pathPool[0], empty.Path) && typeis(s.pathPool[1], *scion.Raw) && asptr(s.pathPool[1], *scion.Raw) != nil && typeis(s.pathPool[2], *onehop.Path) && asptr(s.pathPool[2], *onehop.Path) != nil && typeis(s.pathPool[3], *epic.Path) && asptr(s.pathPool[3], *epic.Path) != nil)
+//@ # ---- serialization through the path interface (C21): what the concrete SerializeTo/Len methods establish, by dynamic type.
+//@ # (*scion.Raw).SerializeTo and (*onehop.Path).SerializeTo are verified against the same clauses; the clauses for
+//@ # *scion.Decoded and *epic.Path (length only) are assumed.
+//@ macro metaBytes(raw, m) = (raw[0] == m.CurrINF<<6|m.CurrHF&0x3f && raw[1] == (m.SegLen[0]&0x3f)>>4 && raw[2] == (m.SegLen[0]&0xf)<<4|(m.SegLen[1]&0x3f)>>2 && raw[3] == (m.SegLen[1]&0x3)<<6|m.SegLen[2]&0x3f)
+//@ iface path.Path.Len
+//@   modifies nothing
+//@   ensures typeis(self, *scion.Raw) ==> result == 4+8*asptr(self, *scion.Raw).NumINF+12*asptr(self, *scion.Raw).NumHops
+//@   ensures typeis(self, *scion.Decoded) ==> result == 4+8*asptr(self, *scion.Decoded).NumINF+12*asptr(self, *scion.Decoded).NumHops
+//@   ensures typeis(self, *onehop.Path) ==> result == 32
+//@   ensures typeis(self, empty.Path) ==> result == 0
+//@   ensures typeis(self, *epic.Path) ==> result == ite(asptr(self, *epic.Path).ScionPath == nil, 16, 16+4+8*asptr(self, *epic.Path).ScionPath.NumINF+12*asptr(self, *epic.Path).ScionPath.NumHops)
+//@ iface path.Path.SerializeTo
+//@   requires typeis(self, *scion.Raw) ==> asptr(self, *scion.Raw) != nil && !sameArray(arg0, asptr(self, *scion.Raw).Raw)
+//@   modifies arg0[:]
+//@   modifies arr(asptr(self, *scion.Raw).Raw) if typeis(self, *scion.Raw)
+//@   modifies arr(asptr(self, *epic.Path).ScionPath.Raw) if typeis(self, *epic.Path)
+//@   ensures result == nil && typeis(self, *scion.Raw) ==> asptr(self, *scion.Raw).Raw != nil && len(arg0) >= 4+8*asptr(self, *scion.Raw).NumINF+12*asptr(self, *scion.Raw).NumHops && len(asptr(self, *scion.Raw).Raw) >= 4
+//@   ensures result == nil && typeis(self, *scion.Raw) ==> metaBytes(asptr(self, *scion.Raw).Raw, asptr(self, *scion.Raw).PathMeta) && forall j int :: 4 <= j && j < len(asptr(self, *scion.Raw).Raw) ==> asptr(self, *scion.Raw).Raw[j] == old(asptr(self, *scion.Raw).Raw[j])
+//@   ensures result == nil && typeis(self, *scion.Raw) ==> forall j int :: 0 <= j && j < len(arg0) ==> arg0[j] == ite(j < len(asptr(self, *scion.Raw).Raw), asptr(self, *scion.Raw).Raw[j], old(arg0[j]))
+//@   ensures typeis(self, *onehop.Path) ==> (result == nil) == (len(arg0) >= 32)
+//@   ensures result == nil && typeis(self, *onehop.Path) ==> arrUpd(arg0, 0, ite(asptr(self, *onehop.Path).Info.ConsDir, 1, 0)|ite(asptr(self, *onehop.Path).Info.Peer, 2, 0), 0, uint8(asptr(self, *onehop.Path).Info.SegID>>8), uint8(asptr(self, *onehop.Path).Info.SegID), uint8(asptr(self, *onehop.Path).Info.Timestamp>>24), uint8(asptr(self, *onehop.Path).Info.Timestamp>>16), uint8(asptr(self, *onehop.Path).Info.Timestamp>>8), uint8(asptr(self, *onehop.Path).Info.Timestamp), ite(asptr(self, *onehop.Path).FirstHop.EgressRouterAlert, 1, 0)|ite(asptr(self, *onehop.Path).FirstHop.IngressRouterAlert, 2, 0), asptr(self, *onehop.Path).FirstHop.ExpTime, uint8(asptr(self, *onehop.Path).FirstHop.ConsIngress>>8), uint8(asptr(self, *onehop.Path).FirstHop.ConsIngress), uint8(asptr(self, *onehop.Path).FirstHop.ConsEgress>>8), uint8(asptr(self, *onehop.Path).FirstHop.ConsEgress), asptr(self, *onehop.Path).FirstHop.Mac[0], asptr(self, *onehop.Path).FirstHop.Mac[1], asptr(self, *onehop.Path).FirstHop.Mac[2], asptr(self, *onehop.Path).FirstHop.Mac[3], asptr(self, *onehop.Path).FirstHop.Mac[4], asptr(self, *onehop.Path).FirstHop.Mac[5], ite(asptr(self, *onehop.Path).SecondHop.EgressRouterAlert, 1, 0)|ite(asptr(self, *onehop.Path).SecondHop.IngressRouterAlert, 2, 0), asptr(self, *onehop.Path).SecondHop.ExpTime, uint8(asptr(self, *onehop.Path).SecondHop.ConsIngress>>8), uint8(asptr(self, *onehop.Path).SecondHop.ConsIngress), uint8(asptr(self, *onehop.Path).SecondHop.ConsEgress>>8), uint8(asptr(self, *onehop.Path).SecondHop.ConsEgress), asptr(self, *onehop.Path).SecondHop.Mac[0], asptr(self, *onehop.Path).SecondHop.Mac[1], asptr(self, *onehop.Path).SecondHop.Mac[2], asptr(self, *onehop.Path).SecondHop.Mac[3], asptr(self, *onehop.Path).SecondHop.Mac[4], asptr(self, *onehop.Path).SecondHop.Mac[5])
+//@   ensures result != nil && typeis(self, *onehop.Path) ==> arrSame(arg0)
+//@   ensures typeis(self, empty.Path) ==> result == nil && arrSame(arg0)
+//@   ensures result == nil && typeis(self, *scion.Decoded) ==> len(arg0) >= 4+8*asptr(self, *scion.Decoded).NumINF+12*asptr(self, *scion.Decoded).NumHops
+//@   ensures result == nil && typeis(self, *epic.Path) ==> asptr(self, *epic.Path).ScionPath != nil && len(arg0) >= 16+4+8*asptr(self, *epic.Path).ScionPath.NumINF+12*asptr(self, *epic.Path).ScionPath.NumHops
 //@ func (*SCION).getPath
 //@   props C08
-//@   requires s.pathPool != nil ==> len(s.pathPool) >= 4 && s.pathPoolRaw != nil && forall i int :: 0 <= i && i < len(s.pathPool) ==> s.pathPool[i] != nil
+//@   inline
+//@   requires poolInv(s)
 //@   modifies nothing
 //@   ensures result1 == nil ==> result0 != nil
 
 //@ func (*SCION).DecodeFromBytes
 //@   props C18 C08
 //@   requires df != nil
-//@   requires s.pathPool != nil ==> len(s.pathPool) >= 4 && s.pathPoolRaw != nil && forall i int :: 0 <= i && i < len(s.pathPool) ==> s.pathPool[i] != nil
+//@   requires poolInv(s)
 //@   let dt = AddrType(data[9]>>4&0xf)
 //@   let st = AddrType(data[9]&0xf)
 //@   let hb = int(data[5])*4
 //@   let al = 16+alen(dt)+alen(st)
-//@   # frame: the layer itself (the path object it points to is written by the path decoder, see the interface contract)
-//@   modifies *s
+//@   # frame: the layer itself and the recycled path objects (the raw path of unknown path types keeps no state that is read)
+//@   modifies *s, *asptr(s.pathPool[1], *scion.Raw), *asptr(s.pathPool[2], *onehop.Path), *asptr(s.pathPool[3], *epic.Path)
 //@   ensures result == nil ==> len(data) >= 12 && hb >= 12+al && len(data) >= hb
 //@   ensures result == nil ==> s.Version == data[0]>>4 && s.TrafficClass == data[0]<<4|data[1]>>4 && s.FlowID == uint32(data[1]&0xf)<<16|uint32(data[2])<<8|uint32(data[3])
 //@   ensures result == nil ==> s.NextHdr == L4ProtocolType(data[4]) && s.HdrLen == data[5] && s.PayloadLen == uint16(data[6])<<8|uint16(data[7]) && s.PathType == path.Type(data[8]) && s.DstAddrType == dt && s.SrcAddrType == st
@@ -165,3 +197,17 @@ package slayers
 //@ func (*UDP).DecodeFromBytes
 //@   props C08 C18
 //@   requires df != nil
+
+//@ # ---- SPAO security parameter index (C21): which key type and direction an SPI denotes
+//@ func (PacketAuthSPI).IsDRKey
+//@   props C21
+//@   modifies nothing
+//@   ensures result == (p > 0 && p < 1<<21)
+//@ func (PacketAuthSPI).Type
+//@   props C21
+//@   modifies nothing
+//@   ensures result == ite(p&(1<<17) == 0, PacketAuthASHost, PacketAuthHostHost)
+//@ func (PacketAuthSPI).Direction
+//@   props C21
+//@   modifies nothing
+//@   ensures result == ite(p&(1<<16) == 0, PacketAuthSenderSide, PacketAuthReceiverSide)
